@@ -61,6 +61,15 @@ func (cache *DefaultStatementCache) Get(ctx context.Context, name string) (*Stat
 	return stmt, nil
 }
 
+// Close removes the prepared statement bound to the given name.
+func (cache *DefaultStatementCache) Close(ctx context.Context, name string) error {
+	cache.mu.Lock()
+	defer cache.mu.Unlock()
+
+	delete(cache.statements, name)
+	return nil
+}
+
 type Portal struct {
 	statement  *Statement
 	parameters []Parameter
@@ -107,6 +116,15 @@ func (cache *DefaultPortalCache) Get(ctx context.Context, name string) (*Portal,
 	}
 
 	return portal, nil
+}
+
+// Close removes the portal bound to the given name.
+func (cache *DefaultPortalCache) Close(ctx context.Context, name string) error {
+	cache.mu.Lock()
+	defer cache.mu.Unlock()
+
+	delete(cache.portals, name)
+	return nil
 }
 
 func (cache *DefaultPortalCache) Execute(ctx context.Context, name string, reader *buffer.Reader, writer *buffer.Writer) (err error) {
